@@ -73,6 +73,41 @@ theorem child_pub_eq (C : WalletCrypto) (w : HDWallet) (i : Nat) (P Q : Nat × N
   rw [hk] at hQ ⊢
   simp only [hparse, hQ, serPoint, c3, or_self, ↓reduceIte]
 
+/-- `Child` on a private key whose scalar gives the point at infinity is outside the model -/
+theorem child_priv_inf (C : WalletCrypto) (w : HDWallet) (k i : Nat)
+    (hw : PrivWF w k) (hi : i < 2 ^ 32) (hP : Secp.mul k Secp.G = none) :
+    child C w i = .error .outside := by
+  obtain ⟨hp, hk, hlt⟩ := hw
+  have hlen : w.key.length = 33 := by simp [hk, Spec.Bip32.ser256, beBytes]
+  have hdrop : w.key.drop 1 = beBytes 32 k := by simp [hk, Spec.Bip32.ser256]
+  have hval : beVal (beBytes 32 k) = k := by
+    rw [beVal_beBytes]; exact Nat.mod_eq_of_lt (by simpa using hlt)
+  unfold child
+  have c1 : ¬ (w.key.length ≠ 33 ∨ i ≥ 2 ^ 32) := by omega
+  simp only [c1, ↓reduceIte, hp, hdrop, publicFromPrivate, hval, hP, serPoint]
+
+/-- `Child` on a public key when I_L·G + P is the point at infinity is outside the model -/
+theorem child_pub_inf (C : WalletCrypto) (w : HDWallet) (i : Nat) (P : Nat × Nat)
+    (hw : PubWF w P) (hi : i < 2 ^ 31)
+    (hparse : Secp.parsePubkey (Secp.ser33 (some P)) = some P)
+    (hQ : Secp.add (Secp.mul (beVal ((C.hmac512 w.chCode (w.key ++ beBytes 4 i)).take 32)) Secp.G) (some P) = none) :
+    child C w i = .error .outside := by
+  obtain ⟨hpub, hnpriv, hk⟩ := hw
+  have hlen : w.key.length = 33 := by rw [hk]; exact ser33_length P
+  have hhead : ¬ (w.key.headD 0 ≠ 2 ∧ w.key.headD 0 ≠ 3) := by
+    rw [hk]; intro ⟨h2, h3⟩; rcases ser33_head P with h | h
+    · exact h2 h
+    · exact h3 h
+  unfold child
+  have hi2 : i < 2 ^ 32 := Nat.lt_trans hi (by decide)
+  have c1 : ¬ (w.key.length ≠ 33 ∨ i ≥ 2 ^ 32) := by omega
+  have c2 : ¬ (i ≥ 2 ^ 31) := by omega
+  have c3 : ¬ (i ≥ 2 ^ 32) := by omega
+  simp only [↓reduceIte, hnpriv, hpub, hardenedFrom_eq, c2, deriveNextPublic, hlen, ne_eq, not_true_eq_false, hhead,
+    Bool.false_eq_true]
+  rw [hk] at hQ ⊢
+  simp only [hparse, hQ, serPoint, c3, or_self, ↓reduceIte]
+
 /-- `Pub` of a well-formed private key -/
 theorem pub_priv_eq (w : HDWallet) (k : Nat) (P : Nat × Nat) (hw : PrivWF w k) (hP : Secp.mul k Secp.G = some P) :
     pub w = .ok { w with pfx := publishPfx w.pfx, key := Secp.ser33 (some P) } := by
